@@ -232,9 +232,35 @@ func enumerate(quick bool, emit func(scenario)) {
 			for _, mid := range []string{"%s.top(13)", "%s.skip(0)", "(%s+[])", "%s.top(20).skip(0)"} {
 				for _, par := range []string{"map", "accept"} {
 					emit(scenario{Family: "A2:pre-mid-par", Src: app(terminals[1].tmpl, app(parStage(par, -1), app(mid, app(pre.tmpl, src)))), N: pre.n13, W: w})
+					// one more element: the feeder calls the upstream closure while the terminal's closure runs
+					emit(scenario{Family: "A2:pre-mid-par", Src: app(terminals[1].tmpl, app(parStage(par, -1), app(mid, app(pre.tmpl, src)))), N: pre.n13 + 1, W: w})
 				}
 			}
 			emit(scenario{Family: "A2:pre-mid-merge", Src: app(terminals[2].tmpl, app("%s.merge([3,5,1000].number((i,v)->v+i),(a,b)->a<b)", app("%s.top(20)", app(pre.tmpl, "numbers(n)")))), N: 3, W: w})
+		}
+		// I: stages that hand GROUPS (lists) to their function, kept and consumed by a parallel stage or a
+		// merge on another goroutine (seeded change S06D: combineN handing out its ring buffer)
+		for _, grp := range []struct {
+			tmpl  string
+			fewer int // the stage yields n - fewer groups
+		}{{"%s.combineN(3,w->w)", 2}, {"%s.combineN(2,w->w.map(e->e+1))", 1}, {"%s.movingWindow(x->x)", 0}, {"%s.combine((p,q)->[p,q])", 1}, {"%s.combine3((p,q,r)->[p,q,r])", 2}} {
+			for _, par := range []string{"map(w->slow(w.sum()))", "map(w->slow(w.string().len()*1000+w.sum()))", "accept(w->slow(w.sum())>=0).size()"} {
+				for _, groups := range []int{14, 15} { // two and three groups in the parallel phase
+					src := app("%s."+par, app(grp.tmpl, src))
+					if !strings.HasSuffix(par, ".size()") {
+						src = app("%s.reduce((p,q)->p*31+q)", src)
+					}
+					emit(scenario{Family: "I:groups-across-goroutines", Src: src, N: groups + grp.fewer, W: w})
+				}
+			}
+			emit(scenario{Family: "I:groups-across-goroutines", Src: app("%s.merge([[1,2,3]],(a,b)->a.sum()<b.sum()).map(w->w.sum()).string()", app(grp.tmpl, src)), N: 5 + grp.fewer, W: w})
+			emit(scenario{Family: "I:groups-across-goroutines", Src: app("%s.multiUse({a:l->l.map(w->w.sum()).string(),b:l->l.map(w->w.size()).sum()})", app(grp.tmpl, src)), N: 5 + grp.fewer, W: w})
+		}
+		// F2: multiUse consumers that stop at once or never touch more than they need
+		for _, cons := range []string{"l->l.top(0).size()", "l->l.top(0)", "l->l.top(0).map(x->x+1).size()", "l->l.top(1).size()", "l->l.skip(100).size()", "l->l.first()"} {
+			for _, n := range []int{1, 3, 13} {
+				emit(scenario{Family: "F2:multiUse-short-consumers", Src: "numbers(n).multiUse({a:" + cons + ",b:l->l.sum()})", N: n, W: w, RefKind: "multiUse:" + cons + "|l->l.sum()|%s"})
+			}
 		}
 		// G: two nested parallel stages
 		if !quick {
@@ -665,7 +691,7 @@ func run(ctx *bex.Ctx) {
 			judge(&st2, rp)
 		}
 	})
-	ctx.SpaceDone("families A (pre x par x post), B (pre x par x terminal), C (par x post x terminal), D (par x terminal x size x failing element), E (merge), F (multiUse), G (nested parallel, thorough); all interleavings per scenario, W=2 (thorough: 2,3)")
+	ctx.SpaceDone("families A (pre x par x post), B (pre x par x terminal), C (par x post x terminal), D (par x terminal x size x failing element), E (merge), F (multiUse), G (nested parallel, thorough), I (groups handed across goroutines), F2 (multiUse consumers that stop at once); all interleavings per scenario, W=2 (thorough: 2,3)")
 }
 
 func reportRaces(ctx *bex.Ctx, st *vsched.Stats, repro map[string]any) {
@@ -776,7 +802,8 @@ func main() {
 			"runtime.NumCPU is the harness' worker count W; W=1 (the library's own sequential fallback) defines the sequential reference for map/accept; merge and multiUse references are computed from separately forced operands"},
 		QuickBudget: 70e9, ThoroughBudget: 28 * 60e9,
 		Workers: 2, CoopWorkers: 10, RaceWorkers: 4,
-		Run:    run,
-		Replay: replay,
+		Run:              run,
+		Replay:           replay,
+		CrashIsViolation: true, // a worker process that dies while it executes a case on the library is a verdict on that case
 	})
 }
